@@ -1227,11 +1227,13 @@ reg(dict(
 C08_WIN1 = [9, 4, 5, 14, 19, 6]      # token subset of the "win1" configurations
 
 
-def c08_decode_for(ver, role, win1=False):
+def c08_decode_for(ver, role, win1=False, nb=False):
     def dec(tokens, variant):
         cfg = dict(role=role, ver=ver, gate_pub=0, gate_proto=0, max_qos=2, max_receive=16, max_send=1 if win1 else 4, raw=1)
         extra = {"mps": 64, "rm": 1 if win1 else 4} if ver == 5 else None
         cmds = [handshake(role, ver, connack=extra, connect=extra)]
+        if nb:
+            cmds.append({"c": "ack_cb"})      # the acknowledgement callback non-blocking sends need
         nxt = 1
         cur = 0        # current streaming sender
         if win1:
@@ -1260,6 +1262,8 @@ def c08_decode_for(ver, role, win1=False):
                 cmds.append({"c": "send", "s": nxt, "k": "stream0", "plen": 5}); cur = nxt; nxt += 1
             elif t == 10:
                 cmds += [{"c": "send", "s": nxt, "k": "q1", "id": 0, "topic": "x" * 70000}, {"c": "poll", "s": nxt}]; nxt += 1
+            elif t == 20:   # non-blocking QoS 1 send (the acknowledgement callback is registered at the start)
+                cmds.append({"c": "send", "s": nxt, "k": "q1nb", "id": 0}); nxt += 1
             elif t == 18:   # a streamed publish whose header cannot be encoded; its stream handle is used anyway
                 cmds += [{"c": "send", "s": nxt, "k": "stream1", "id": 0, "plen": 6, "topic": "x" * 70000}, {"c": "poll", "s": nxt}]
                 cur = nxt; nxt += 1
@@ -1299,12 +1303,12 @@ CHECK_DEADLOCK FALSE
 """
 
 OUT_TOK = {"q0": 1, "q1": 2, "q2": 3, "s1": 4, "c2": 5, "c4": 6, "c7": 7, "sd": 8, "s0": 9, "q1long": 10, "q1big": 11,
-           "q1id1": 12, "in1": 13, "ack": 14, "close": 15, "ctl": 16, "q0id": 17, "s1long": 18}
+           "q1id1": 12, "in1": 13, "ack": 14, "close": 15, "ctl": 16, "q0id": 17, "s1long": 18, "q1nb": 20}
 
 
-def out_decode_for(ver, role):
+def out_decode_for(ver, role, nb=False):
     """behaviours of the write-path model Out.tla: its tokens are the sink-operation tokens of this group"""
-    base = c08_decode_for(ver, role)
+    base = c08_decode_for(ver, role, nb=nb)
 
     def dec(tokens, variant):
         cfg, cmds = base([OUT_TOK[t] for t in tokens], variant)
@@ -1325,6 +1329,8 @@ def c08_model_configs(tier):
                        out_decode_for(ver, role), [None], 800 if tier == "quick" else 8000))
             cs.append((f"m_v{ver}{role[0]}_strm", OUT_CFG.format(ver=ver, role=role, toks="TStream", n=4 if tier == "quick" else 5), "MC_Out",
                        out_decode_for(ver, role), [None], 800 if tier == "quick" else 8000))
+            cs.append((f"m_v{ver}{role[0]}_nb", OUT_CFG.format(ver=ver, role=role, toks="TNb", n=4), "MC_Out",
+                       out_decode_for(ver, role, nb=True), [None], 800 if tier == "quick" else 8000))
             cs.append((f"m_v{ver}{role[0]}_resp", OUT_CFG.format(ver=ver, role=role, toks="TResp", n=4 if tier == "quick" else 5), "MC_Out",
                        out_decode_for(ver, role), [None], 800 if tier == "quick" else 8000))
     return cs
